@@ -46,7 +46,7 @@ OnTexit(e) == Result([st EXCEPT !.alive = @ \ {e.t}], Chk(st.holds[e.t] = -1, "X
 OnTalloc(e) ==
   LET rec == [id |-> e.id, t |-> e.t, hi |-> e.hi, lo |-> e.lo, len |-> e.len]
       clash == {a \in st.live : Overlap(a, rec)}
-  IN IF e.r # "ok" THEN Result(st, Chk(e.r \in {"throw:out_of_memory", "throw:out_of_fixed_memory", "throw:bad_allocation_size"},
+  IN IF e.r # "ok" THEN Result(st, Chk(e.r \in {"throw:out_of_memory", "throw:out_of_fixed_memory", "throw:bad_allocation_size", "throw:bad_node_size", "throw:bad_array_size", "throw:bad_alignment"},
                                      "C03", "ThrowIsLibraryFamily", <<e.r>>))
      ELSE Result([st EXCEPT !.live = @ \cup {rec}],
             Chk(clash = {}, "C14", "TemporaryMemoryDisjoint", <<e.t, e.id, {<<a.t, a.id>> : a \in clash}>>)
